@@ -66,6 +66,10 @@ CLAIMED = {
          "Exploration with tens of thousands of cheap cases: random operator sequences over LinearCombination are mirrored on numbers under a random assignment and compared after every step; evaluate_query_set is compared with Horner evaluation and the exact key set; the succinct check polynomial's coefficient vector is compared with the harness's own expansion and its O(log d) evaluation with Horner.",
          "none beyond field arithmetic of ark-ff",
          "DESIGN.md §4 C16"),
+ "C17": ("fault enumeration x property-based generation: request kinds and boundary magnitudes injected into generated valid scenarios",
+         "Exploration of the boundary of every scheme's domain: each case injects one out-of-domain request kind (oversized polynomial by degree/total degree/variables, hiding bound 0 or beyond the key, missing RNG, point of the wrong length, unknown polynomial, missing commitment/evaluation, mismatched labels, trim beyond the parameters, degenerate setup) at a generated magnitude into an otherwise valid generated scenario; Ok results are violations (or, where the scheme defines the request, anything served must be sound). Sensitivity confirmed against the reverted fixes F11, F12, F13 (and F7 through C01).",
+         "Which requests are out of domain is read from each scheme's documentation/admission code (IPA: every hiding bound hides; Ligero: no size limit; PST13/multilinear-PST embed polynomials with fewer variables).",
+         "DESIGN.md §4 C17"),
 }
 
 NOT_YET = "check not built yet in this round (planned, see DESIGN.md §4)"
